@@ -11,6 +11,7 @@ mod games;
 mod idcheck;
 mod gen_games;
 mod master;
+mod gs3;
 mod net;
 mod quake;
 mod reader;
@@ -41,6 +42,7 @@ fn entries() -> Vec<(&'static str, EntryFn)> {
     v.extend(real::entries());
     v.extend(unreal2::entries());
     v.extend(minecraft::entries());
+    v.extend(gs3::entries());
     v
 }
 
